@@ -183,6 +183,7 @@ struct Ctx {
     bool nontrivial = false;
     bool strict_enomem = false;	// C12: a call failing under an allocation fault must report ENOMEM
     bool no_retry = false;	// a call that failed because of an injected fault is NOT re-issued: the object is used on as it is
+    int restart_cb = -1;	// set by the array-files "restart" operation: the new objects were created with (1) / without (0) an error function
     bool cb_installed = true;	// C11: the object under test was created with an error function
     bool c11 = false;		// C11: reporting-discipline oracle enabled (cfg c11)
     std::vector<long> main_allocs;	// per operation: VNA-domain allocations made by fault-armed calls
